@@ -4,7 +4,7 @@
 seeded/<id>/meta.json (field "ran") and seeded/RESULTS.json."""
 import json, os, subprocess, sys, time
 V = os.path.dirname(os.path.dirname(os.path.abspath(__file__)))
-EXTRA = {'C14-1': ['C02'], 'C01-1': ['C08', 'C10'], 'C08-1': ['C01'], 'C10-1': ['C01'], 'C07-1': ['C01'], 'C18-1': ['C20']}
+EXTRA = {'C14-1': ['C02'], 'C02-2': ['C14'], 'C02-1': ['C14'], 'C01-1': ['C08', 'C10'], 'C08-1': ['C01'], 'C10-1': ['C01'], 'C07-1': ['C01'], 'C18-1': ['C20']}
 only = sys.argv[1:]
 results = json.load(open(os.path.join(V, 'seeded', 'RESULTS.json'))) if os.path.exists(os.path.join(V, 'seeded', 'RESULTS.json')) else {}
 if subprocess.run(['git', '-C', '/repo', 'status', '--short'], capture_output=True, text=True).stdout.strip():
